@@ -430,4 +430,147 @@ theorem parse_error_refines_model {f : Text} {o : Int} {st : St} {pieces : List 
   · simp only [ha, bind, Except.bind]
     exact refines_err rfl
 
+theorem endswith_colon (p : Text) : PyT.endswith p [':'] = decide (p.getLast? = some ':') := by
+  unfold PyT.endswith
+  rcases List.eq_nil_or_concat p with h | ⟨q, x, h⟩
+  · subst h; rfl
+  · subst h
+    simp [List.isSuffixOf]
+    by_cases hx : x = ':'
+    · subst hx; simp [List.isPrefixOf]
+    · simp [List.isPrefixOf, hx]
+      exact fun h => hx h.symm
+
+theorem rep_last {pieces : List Text} {st : St} {p : Text} (h : Rep pieces st) (hl : pieces.getLast? = some p) :
+    PyT.endswith p [':'] = decide (st.token.getLast? = some ':') := by
+  obtain ⟨h1, h2⟩ := h
+  obtain ⟨init, hi⟩ := List.getLast?_eq_some_iff.mp hl
+  have hp : p ≠ [] := h2 p (by rw [hi]; simp)
+  rw [endswith_colon, h1, hi]
+  simp only [List.flatten_append, List.flatten_cons, List.flatten_nil, List.append_nil]
+  rw [List.getLast?_append]
+  cases hpl : p.getLast? with
+  | none => exact absurd (List.getLast?_eq_none_iff.mp hpl) hp
+  | some x => simp
+
+theorem drop_take_length {α} (l : List α) (n : Nat) : l.drop n = l.drop (l.take n).length := by
+  rw [List.length_take]
+  rcases Nat.le_total n l.length with h | h
+  · rw [Nat.min_eq_left h]
+  · rw [Nat.min_eq_right h, List.drop_of_length_le h, List.drop_of_length_le (Nat.le_refl _)]
+
+
+/-- the linked-quote test of `parse_string` (`delim == "'" and self.token and self.token[-1].endswith(":")`) is the model's
+    `linked`: the last piece ends in a colon exactly when the joined token does (no piece is empty) -/
+theorem linked_src {pieces : List Text} {st : St} {c : Char} {r : Text} (hr : Rep pieces st) (hrs : st.rest = c :: r) :
+    (if decide (([c] : Text) = ['\'']) = true then
+        (if (!pieces.isEmpty) = true then
+          (do let t2 ← pyIndex pieces (-1); pure (PyT.endswith t2 [':']) : PyM Bool)
+        else pure false)
+      else pure false) = .ok (linked st) := by
+  unfold linked
+  by_cases hc : c = '\''
+  · subst hc
+    simp only [hrs, decide_true, if_true]
+    cases hl : pieces.getLast? with
+    | none =>
+      have hpn : pieces = [] := List.getLast?_eq_none_iff.mp hl
+      have ht : st.token = [] := by rw [hr.1, hpn]; rfl
+      simp [hpn, ht, pure, Except.pure]
+    | some p =>
+      have hpn : pieces ≠ [] := by intro h; rw [h] at hl; cases hl
+      have : pieces.isEmpty = false := by simpa using hpn
+      simp only [this, Bool.not_false, if_true, index_last hl, bind, Except.bind, pure, Except.pure, rep_last hr hl]
+  · have : decide (([c] : Text) = ['\'']) = false := by simp [hc]
+    simp only [this, Bool.false_eq_true, if_false, hrs, pure, Except.pure]
+    split
+    · rename_i heq; injection heq with heq; exact absurd heq hc
+    · rfl
+
+/-- what `parseString` does with the scanner's answer -/
+def strTail (st : St) (m : Option Nat) : PyM St :=
+  match m with
+  | none => .error .TokenizerError
+  | some n =>
+    if st.token ≠ [] then .ok { st with token := st.token ++ st.rest.take n, rest := st.rest.drop n }
+    else .ok { st with items := st.items ++ [makeOperand (st.rest.take n)], rest := st.rest.drop n }
+
+theorem parseString_eq {ws : List Nat} {st : St} {c : Char} {r : Text} (hrs : st.rest = c :: r) (hq : c = '"' ∨ c = '\'') :
+    parseString ws st = (do quoteGuard st; strTail st (if c = '"' then dqMatch st.rest else sqMatch ws st.rest)) := by
+  unfold parseString strTail
+  rcases hq with h | h
+  · subst h
+    cases hg : quoteGuard st
+    · rfl
+    · simp only [bind, Except.bind, hrs, if_true]
+      cases dqMatch ('"' :: r) <;> rfl
+  · subst h
+    cases hg : quoteGuard st
+    · rfl
+    · simp only [bind, Except.bind, hrs]
+      have : ¬ ('\'' = '"') := by decide
+      simp only [this, if_false]
+      cases sqMatch ws ('\'' :: r) <;> rfl
+
+theorem parse_string_refines_model {f : Text} {o : Int} {st : St} {pieces : List Text} {c : Char} {r : Text}
+    (hp : Pos f o st) (hr : Rep pieces st) (hrs : st.rest = c :: r) (hq : c = '"' ∨ c = '\'') :
+    Refines f o ((parse_string f o st.items pieces).map (fun r => (r.1, r.2.1, st.stack, r.2.2)))
+      (parseString Gen.whitespace st) := by
+  obtain ⟨h0, hrest⟩ := hp
+  rw [parseString_eq hrs hq]
+  unfold parse_string
+  simp only [index_cons h0 (hrest ▸ hrs), bind, Except.bind, pure, Except.pure] 
+  have hl := linked_src hr hrs
+  simp only [bind, Except.bind, pure, Except.pure] at hl
+  rw [hl]
+  simp only [slice_from h0, ← hrest, assert_empty_token_eq_model pieces st hr]
+  have hguard : (if (!linked st) = true then
+      (do let _ ← assertEmpty st; pure () : PyM Unit) else pure ()) = quoteGuard st := by
+    unfold quoteGuard
+    cases linked st <;> simp <;> cases assertEmpty st <;> rfl
+  simp only [bind, Except.bind, pure, Except.pure] at hguard
+  rw [hguard]
+  rcases guard_cases st with hg | hg
+  · simp only [hg]
+    have hpe : pieces.isEmpty = decide (st.token = []) := by
+      by_cases ht : st.token = []
+      · have : pieces = [] := by
+          by_cases hpn : pieces = []
+          · exact hpn
+          · exact absurd ht ((rep_pieces_ne hr).mp hpn)
+        simp [ht, this]
+      · have hpn := (rep_pieces_ne hr).mpr ht
+        simp [ht, hpn]
+    -- the scanner the key selects is the one the model selects by the first character
+    have hscan : ∃ scan : Text → Option Nat,
+        stringRegexes Gen.whitespace [c] = .ok (reMatch0 scan) ∧
+        (if c = '"' then dqMatch st.rest else sqMatch Gen.whitespace st.rest) = scan st.rest ∧
+        (∀ n, scan st.rest = some n → 1 ≤ n) := by
+      rcases hq with h | h
+      · subst h
+        exact ⟨dqMatch, by simp [stringRegexes], by simp, fun n h => dqMatch_pos h⟩
+      · subst h
+        exact ⟨sqMatch Gen.whitespace, by simp [stringRegexes], by simp, fun n h => sqMatch_pos h⟩
+    obtain ⟨scan, hsr, hsel, hpos⟩ := hscan
+    rw [hsr, hsel]
+    simp only [reMatch0]
+    cases hm : scan st.rest with
+    | none => exact refines_err rfl
+    | some n =>
+      have hn := hpos n hm
+      have htk : st.rest.take n ≠ [] := by
+        rw [hrs]; cases n with
+        | zero => omega
+        | succ k => simp
+      simp only [Option.map_some, hpe, strTail]
+      by_cases ht : st.token = []
+      · simp only [ht, decide_true, Bool.not_true, Bool.false_eq_true, if_false, ne_eq, not_true_eq_false]
+        refine refines_ok ((st.rest.take n).length : Int) pieces rfl ?_ (rep_token_eq hr (by simp [ht]))
+        exact pos_advance ⟨h0, hrest⟩ _ (drop_take_length st.rest n)
+      · simp only [ht, decide_false, Bool.not_false, if_true, ne_eq, not_false_eq_true]
+        refine refines_ok ((st.rest.take n).length : Int) (pieces ++ [st.rest.take n]) rfl ?_ (rep_append hr _ htk rfl)
+        exact pos_advance ⟨h0, hrest⟩ _ (drop_take_length st.rest n)
+  · simp only [hg]
+    exact refines_err rfl
+
 end NumbersModel.Translated
